@@ -397,6 +397,34 @@ func run(tier string, shard, nsh int, res *ev.Result) {
 				}
 			}
 		}
+		// many targets, interleaved: one field for each of n targets (n = 2..17: past every power of two a growing table
+		// reallocates), then one more field - at a new address - for the k-th target
+		for n := 2; n <= 17; n++ {
+			for k := 0; k < n; k++ {
+				if n > 6 && k != 0 && k != n/2 && k != n-1 {
+					continue
+				}
+				for _, tgt := range []int{0, 4, 7} {
+					typ := uint8(5)
+					if tgt < 4 {
+						typ = 14
+					}
+					var fs []F
+					for i := 0; i < n; i++ {
+						fs = append(fs, F{"A", uint8(1 + i), 10, typ, 0, 0})
+					}
+					fs = append(fs, F{"A", uint8(1 + k), 40, typ, 0, 0})
+					eval(Case{Target: tgt, Fields: fs}, res, lc)
+					// and the same spread over servers instead of units
+					var gs []F
+					for i := 0; i < n; i++ {
+						gs = append(gs, F{fmt.Sprintf("S%d", i), 1, 10, typ, 0, 0})
+					}
+					gs = append(gs, F{fmt.Sprintf("S%d", k), 1, 40, typ, 0, 0})
+					eval(Case{Target: tgt, Fields: gs}, res, lc)
+				}
+			}
+		}
 		// same-address fields that are not neighbours in the list
 		for _, t1 := range []uint8{5, 9, 1, 13} {
 			for _, t2 := range []uint8{5, 9, 1, 13} {
